@@ -338,6 +338,34 @@ func c05Universe() []string {
 	for _, s := range []string{"", "hello world", "foo 12 bar", "alice@example.com", "3.14", "1 union", "foo--", "1c", "x' or 1=1 -- sp_password", "1 --x\n or 1=1", "\" or \"\"=\"", "<a href=&#", "<![CDATA[]]]", "<%>%%>-", "q'\xe9a\xe9' or 1=1", "@a\x00union select 1", "''''''''", strings.Repeat("((1", 40), strings.Repeat("<a ", 40)} {
 		add(s)
 	}
+	// near-duplicate pairs with different results (a lossy cache key - lower-cased, sampled,
+	// truncated - makes the second of a pair inherit the first one's answer), at lengths
+	// around 32, 64, 128 and 256 bytes
+	pad := func(s string, n int) string {
+		for len(s) < n {
+			s += " lorem ipsum dolor"
+		}
+		return s
+	}
+	for _, n := range []int{0, 32, 44, 64, 73, 130, 260} {
+		for _, pr := range [][2]string{
+			{"administrator_account_name -- sp_password", "administrator_account_name -- SP_PASSWORD"},
+			{"1 or \\N is null and 'aaaaaaaaaaaaaaaaaaaaaaaaaaaa'='a'", "1 or \\n is null and 'aaaaaaaaaaaaaaaaaaaaaaaaaaaa'='a'"},
+			{"$tag$ x $tag$ union select 1 from dual where 1=1", "$tag$ x $TAG$ union select 1 from dual where 1=1"},
+			{"my comment was: aaaa<script>, ok", "my comment was: aaaa script>, ok"},
+			{"my comment was: aaaa<script>, ok", "my comment was: aaab<script>, ok"},
+			{"the value 1 union select password from users", "the value 1 onion select password from users"},
+			{"please see <a href=javascript:alert(1)>this</a>", "please see <a href=javascripx:alert(1)>this</a>"},
+			{"x' or 1=1 -- and some more text to make it long", "x  or 1=1 -- and some more text to make it long"},
+			{"<img src=x onerror=alert(1) alt='a long description'>", "<img src=x onerror alert(1) alt='a long description'>"},
+		} {
+			add(pad(pr[0], n))
+			add(pad(pr[1], n))
+		}
+	}
+	for _, q := range []string{"q'(report]' or 1=1 -- for the third quarter)'", "q'[a]' or 1=1", "nq'{x}' union select 1", "q'!a!' or 1=1 -- ", "q'<a>' or 1=1", "q'(a)' or q'[b]'='b'", "Q'|x|' or 1=1", "q'\xe9a\xe9' or 1=1", "1 or q'(a))' union select 1", "q'#a#'", "nq'(abc)'='abc'", "q'(a", "x' or q'[z]'=q'(z)' -- "} {
+		add(q)
+	}
 	for _, f := range gen.FragSQL {
 		add("1 " + f + " 1")
 	}
